@@ -4,7 +4,6 @@ import (
 	"bytes"
 	"encoding/json"
 	"fmt"
-	"sync"
 )
 
 // SimpleNode is used as the default node type when there is no more appropriate
@@ -108,16 +107,13 @@ func (node *SimpleNode) Nodes() Nodes {
 func (node *SimpleNode) AddNode(n Node) {
 	node.children = append(node.children, n)
 
-	// This is pretty crude and nasty. I'm sorry if your workflow is to switch
-	// between small changes and large sweeping reads but this will do for now.
-	//
-	// We can't simply remove this node because we would have to make sure we
-	// work our way up the chain which we have no easy way of doing right now.
-	nodeCache = &sync.Map{}
+	invalidateCaches()
 }
 
 func (node *SimpleNode) DeleteNode(n Node) (didDelete bool) {
 	node.children, didDelete = node.children.deleteNode(n)
+
+	invalidateCaches()
 
 	return
 }
@@ -227,6 +223,8 @@ func (node *SimpleNode) GEDCOMLine(indent int) string {
 // You can use SetNodes(nil) to remove all child nodes.
 func (node *SimpleNode) SetNodes(nodes Nodes) {
 	node.children = nodes
+
+	invalidateCaches()
 }
 
 func (node *SimpleNode) RawSimpleNode() *SimpleNode {
